@@ -18,6 +18,12 @@ Section Gate.
   (* lower_better: Davies-Bouldin; otherwise Calinski-Harabasz / silhouette *)
   Definition cvi_match (ncat : nat) (labels : list nat) (i c : nat) (lower_better : bool) (old new : N) : bool :=
     if Nat.ltb ncat 2 then true
+    else if negb (index_defined labels) then true                    (* nothing to compare with *)
+    else if negb (index_defined (set_at i c labels)) then false      (* a defined index would become undefined *)
+    else if lower_better then nltb new old else nltb old new.
+  (* /repo 7e6350b .. 99d1851: permitted whenever either labelling had no index *)
+  Definition cvi_match_lenient (ncat : nat) (labels : list nat) (i c : nat) (lower_better : bool) (old new : N) : bool :=
+    if Nat.ltb ncat 2 then true
     else if negb (index_defined labels && index_defined (set_at i c labels)) then true
     else if lower_better then nltb new old else nltb old new.
   (* before the fix the index was evaluated whenever the base module had two categories *)
@@ -28,14 +34,15 @@ Section Gate.
          | _, _ => None          (* scikit-learn raises ValueError *)
          end.
 
-  (* a permitted assignment strictly improves the index whenever there is an index to compare *)
+  (* a permitted assignment keeps the index defined and strictly improves it, whenever there was an index before *)
   Theorem gate_strict ncat labels i c lb old new :
     cvi_match ncat labels i c lb old new = true -> 2 <= ncat ->
-    index_defined labels = true -> index_defined (set_at i c labels) = true ->
-    (if lb then nltb new old else nltb old new) = true.
+    index_defined labels = true ->
+    index_defined (set_at i c labels) = true /\ (if lb then nltb new old else nltb old new) = true.
   Proof.
-    unfold cvi_match. intros H Hn H1 H2.
-    destruct (Nat.ltb_spec ncat 2) as [Hl|_]; [lia|]. rewrite H1, H2 in H. cbn in H. exact H.
+    unfold cvi_match. intros H Hn H1.
+    destruct (Nat.ltb_spec ncat 2) as [Hl|_]; [lia|]. rewrite H1 in H. cbn [negb] in H.
+    destruct (index_defined (set_at i c labels)); cbn [negb] in H; [split; [reflexivity|exact H]|discriminate].
   Qed.
   (* ... and the verdict exists for every labelling: the gate never fails *)
   Theorem gate_total ncat labels i c lb old new : exists b : bool, cvi_match ncat labels i c lb old new = b.
@@ -46,8 +53,20 @@ Section Gate.
   Proof.
     unfold cvi_match. intros Hn H1 H2 H. destruct (Nat.ltb_spec ncat 2) as [Hl|_]; [lia|]. rewrite H1, H2. cbn. exact H.
   Qed.
+  Theorem gate_refuses_losing_the_index ncat labels i c (lb : bool) (old new : N) :
+    2 <= ncat -> index_defined labels = true -> index_defined (set_at i c labels) = false ->
+    cvi_match ncat labels i c lb old new = false.
+  Proof.
+    unfold cvi_match. intros Hn H1 H2. destruct (Nat.ltb_spec ncat 2) as [Hl|_]; [lia|]. rewrite H1, H2. reflexivity.
+  Qed.
 End Gate.
 
 (* every sample its own cluster (what a second epoch meets): no index, the old code had nothing to return *)
 Example every_sample_its_own_cluster : index_defined [0; 1; 2] = false /\ index_defined [0; 0; 1] = true /\ index_defined [0; 0; 0] = false.
 Proof. vm_compute. repeat split; reflexivity. Qed.
+
+(* the lenient variant let a sample leave a labelling with an index for one without: [0;0;1;1] -> every sample alone
+   is impossible in one move, but [0;1;2;2] -> [0;1;2;3] is *)
+Example lenient_variant_refuted :
+  index_defined [0; 1; 2; 2] = true /\ index_defined (set_at 3 3 [0; 1; 2; 2]) = false.
+Proof. vm_compute. split; reflexivity. Qed.
